@@ -616,11 +616,8 @@ func hasIn(x *Expr) bool {
 
 func (rn *runner) doQuery(mst string, x *Expr) {
 	opi := len(rn.c.Ops)
-	only2 := hasIn(x)
-	var ids []uint64
-	if !only2 {
-		ids = rn.e.queryIDs(mst, x)
-	}
+	only2 := false // IN / NOT IN are judged on both paths since round 5 (the show-series path ignored them: finding)
+	ids := rn.e.queryIDs(mst, x)
 	ids2 := rn.e.queryOpts(mst, x)
 	rn.c.Ops = append(rn.c.Ops, Op{Op: "query", Mst: mst, Expr: x, IDs: ids, IDs2: ids2, Only2: only2})
 	atomsOf(x, func(a *Expr) {
@@ -1115,16 +1112,11 @@ func genCase(r *gen.Rand, dir string, i int) *Case {
 			if r.Bool() {
 				rn.doList(gen.Pick(r, ms))
 			} else {
-				// listings with a condition / cardinalities; IN is not implemented on that path
+				// listings with a condition / cardinalities
 				mst := gen.Pick(r, ms)
 				var x *Expr
 				if !r.Chance(1, 5) {
-					for try := 0; try < 8; try++ {
-						if x = g.genExpr(mst, r.Intn(3)); !hasIn(x) {
-							break
-						}
-						x = nil
-					}
+					x = g.genExpr(mst, r.Intn(3))
 				}
 				rn.doCondList(mst, x)
 			}
@@ -1441,7 +1433,7 @@ func main() {
 		// the pattern x value matrix of the regular-expression translation (deterministic, once per run)
 		dir := filepath.Join(base, "matrix")
 		all := append(append([]string{}, pats...), matrixPats...)
-		ngen := 60
+		ngen := 40
 		if gen.Tier() != "quick" {
 			ngen = 600
 		}
